@@ -520,7 +520,10 @@ def status(pid, tier, replay):
         return engine.engine_replay(pid, replay)
     fams = _fams([dict(fam="pools", K=1, CH=1), dict(fam="fail", K=1, CH=2), dict(fam="restat", K=4, CH=3), dict(fam="dyn", K=1, CH=2), dict(fam="intr", K=1, CH=1)],
                  [dict(fam="pools", K=8, CH=1), dict(fam="fail", K=9, CH=10), dict(fam="restat", K=40, CH=4), dict(fam="dyn", K=1, CH=20), dict(fam="intr", K=6, CH=3)], tier)
-    return engine.engine_check(pid, fams, tier, maxruns=16 if tier == "quick" else 100, props=["C20"])
+    fams += _fams([dict(fam="status", K=2, CH=2)], [dict(fam="status", K=12, CH=6)], tier)
+    return engine.engine_check(pid, fams, tier, maxruns=16 if tier == "quick" else 100, props=["C20"], stream=True,
+                               extra_cov={"stream_rule": "family status: every Status call of the real StatusPrinter/LinePrinter with the bytes it wrote to a captured stdout "
+                                          "(file and pseudo terminal), lexed into status / failed / output tokens and validated by spec/StatusStream.tla"})
 
 
 @reg("C12")
